@@ -38,7 +38,8 @@ static object_t *O, *OTHER;
 static int iv, isv, iov, imarker, ipad, ibv, ibsv;
 static const char *part = "leaves";
 static int selftest;
-static int NL = 1, DEPTH = 3, SLEN = 5;
+#define MAXTEXT_DEFAULT 1000
+static int NL = 1, DEPTH = 3, SLEN = 5, NTEXTS = MAXTEXT_DEFAULT, OBJRT = 1;
 static const char *scratch_base;
 static char my_root[PATH_MAX];
 static pid_t root_owner;
@@ -194,10 +195,12 @@ static void ro_fn (void *p) { struct so_arg *a = p; a->ret = restore_object (O, 
 /* a fixed save+restore that must always work: the behavioural form of "state is at rest" */
 static void probe (const char *after) {
   static const char text[] = "({1,({2,\"x\",}),([3:4,]),(/5,/),-6,})";
-  char buf[64]; strcpy (buf, text);
+  char *buf = strdup (text);
   svalue_t r = V_int (0);
   struct rv_arg a = { &r, buf, 0, 0 };
-  if (hx_guard (rv_fn, &a)) { fail ("probe-restore-failed", "after %s a well-formed text no longer restores: %s", after, hx_last_error); return; }
+  int perr = hx_guard (rv_fn, &a);
+  free (buf);
+  if (perr) { fail ("probe-restore-failed", "after %s a well-formed text no longer restores: %s", after, hx_last_error); return; }
   struct sv_arg s = { &r, 0, 0 };
   if (hx_guard (sv_fn, &s)) { fail ("probe-save-failed", "after %s a simple value no longer saves: %s", after, hx_last_error); free_svalue (&r, "c16"); return; }
   if (strcmp (s.text, text)) fail ("probe-differs", "after %s the probe round trip gives %.100s", after, s.text);
@@ -428,8 +431,10 @@ static void struct_elem (long blk) {
     if (i == from) vx_obs ("%s", desc_cur);
     char *text = roundtrip_variable (&v, 1);
     int ok = at_rest ("save_variable/restore_variable");
-    roundtrip_object (&v, (int) (i & 1), 1);
-    ok &= at_rest ("save_object/restore_object");
+    if (OBJRT) {
+      roundtrip_object (&v, (int) (i & 1), 1);
+      ok &= at_rest ("save_object/restore_object");
+    }
     if (!ok) probe ("a structure round trip");
     free (text);
     free_svalue (&v, "c16");
@@ -458,7 +463,7 @@ static svalue_t chain (int kind, int n) {
 }
 static void chain_elem (long idx) {
   int n = CHAIN_N[idx % NCHAIN_N]; int kind = (int) (idx / NCHAIN_N);
-  snprintf (ctx_key, sizeof ctx_key, "chain-%s:%s", CHAIN_KIND[kind], n <= MAX_SAVE_SVALUE_DEPTH ? "within-limit" : "beyond-limit");
+  snprintf (ctx_key, sizeof ctx_key, "nesting-chain:%s", n <= MAX_SAVE_SVALUE_DEPTH ? "within-limit" : "beyond-limit");
   snprintf (desc_cur, sizeof desc_cur, "%d nested containers (%s), limit %d", n, CHAIN_KIND[kind], MAX_SAVE_SVALUE_DEPTH);
   vx_obs ("%s", desc_cur);
   svalue_t v = chain (kind, n);
@@ -485,7 +490,7 @@ static const char FSYMS[] = "({[/\",:})]\\-.e+1 \n#";
 
 static void add_text (svalue_t v) {
   struct sv_arg s = { &v, 0, 0 };
-  if (!hx_guard (sv_fn, &s) && ntext < MAXTEXT) { TEXT[ntext++] = strdup (s.text); FREE_MSTR (s.text); }
+  if (!hx_guard (sv_fn, &s) && ntext < MAXTEXT && ntext < NTEXTS) { TEXT[ntext++] = strdup (s.text); FREE_MSTR (s.text); }
   save_svalue_depth = 0;
   free_svalue (&v, "c16");
 }
@@ -526,7 +531,7 @@ static void init_texts (void) {
   for (int i = 0; i < ntext; i++) text_off[i + 1] = text_off[i] + (long) strlen (TEXT[i]) * (NSYM + 2);
   FILES[nfiles++] = strdup ("#/c16/o.c\nv ({1,\"a\",})\nmarker 5\nbv ([\"k\":2,])\n");
   FILES[nfiles++] = strdup ("v \"a\\\"b\"\npad \"xyz\"\nmarker -3\n");
-  FILES[nfiles++] = strdup ("marker 5\nv (/1,({2,}),/)\nbv 2.5\n");
+  FILES[nfiles++] = strdup ("marker 5\nsv 5\nv (/1,({2,}),/)\nbv 2.5\n");    /* names a static variable */
   file_off[0] = 0;
   for (int i = 0; i < nfiles; i++) file_off[i + 1] = file_off[i] + (long) strlen (FILES[i]) * (NFSYM + 2);
 }
@@ -577,13 +582,14 @@ static void damage_elem (long idx) {
     snprintf (desc_cur, sizeof desc_cur, "text %.100s, %s: %.100s", TEXT[t], what, buf);
     vx_obs ("%s", desc_cur);
     if (mode == 0) {
-      char work[512]; strcpy (work, buf);
+      char *work = strdup (buf);
       svalue_t r = V_int (0);
       struct rv_arg a = { &r, work, 0, 0 };
       int err = hx_guard (rv_fn, &a);
       if (!err) { (void) hx_canon_s (&r); free_svalue (&r, "c16"); }
       vx_obs ("  restore_variable -> %s", err ? hx_last_error : "value");
       at_rest ("restore_variable of damaged text");
+      free (work);
       vx_count (err ? 2 : 3, 1);
     } else {
       char file[700];
@@ -621,8 +627,9 @@ static const char SSYMS[] = "({[/\",:})]\\-.e+1";
 static long pw (long b, int e) { long r = 1; while (e-- > 0) r *= b; return r; }
 static long strings_total (void) { long t = 0; for (int L = 0; L <= SLEN; L++) t += pw (NS, L > 2 ? L - 2 : 0); return t; }
 static void one_string (const char *s) {
-  char w1[16], w2[16];
-  strcpy (w1, s); strcpy (w2, s);
+  /* exact-size heap copies, as the efun has them (unlink_string_svalue): an overrun is a heap-buffer-overflow */
+  char *w1 = strdup (s), *w2 = strdup (s);
+  if (vx_replaying ()) vx_obs ("  %s", s);
   svalue_t r = V_int (0);
   struct rv_arg a = { &r, w1, 0, 0 };
   int err = hx_guard (rs_fn, &a);
@@ -636,6 +643,7 @@ static void one_string (const char *s) {
   } else (void) hx_canon_s (&old);
   free_svalue (&old, "c16");
   if (!at_rest ("safe_restore_svalue")) { snprintf (desc_cur, sizeof desc_cur, "text %s", s); save_svalue_depth = 0; }
+  free (w1); free (w2);
   vx_count (1, 2);
 }
 static void strings_elem (long idx) {
@@ -833,8 +841,36 @@ static void names_elem (long idx) {
 }
 
 /* ------------------------------------------------------------------ dispatch */
+static void elem_body (long idx);
+static void describe (long idx, char *buf, size_t len);
+/* after the first memory error nothing that follows in that process means anything (and what follows depends on
+   what the wild access happened to hit): the report has been printed, end the element's process there.  On a tree
+   without memory errors this never runs. */
+extern void __asan_set_error_report_callback (void (*cb) (const char *)) __attribute__ ((weak));
+static void on_asan_report (const char *report) { (void) report; if (in_grandchild) { vx_count (7, 1); __real__exit (0); } }
+/* every element runs in its own process: on a tree with memory errors in the restore code an element can corrupt
+   the heap or the stack, and whatever ran next in the same process would depend on it */
 static void elem (long idx) {
   ensure_root ();
+  fflush (0);
+  pid_t pid = fork ();
+  if (pid < 0) { vx_fail ("HARNESS:fork", "fork failed"); return; }
+  if (pid == 0) {
+    in_grandchild = 1;
+    elem_body (idx);
+    fflush (0);
+    __real__exit (0);
+  }
+  int status = 0;
+  while (waitpid (pid, &status, 0) == -1 && errno == EINTR) ;
+  if (!(WIFEXITED (status) && WEXITSTATUS (status) == 0)) {
+    vx_scan_now ();             /* a fatal sanitizer report names the place; otherwise say that it died */
+    char d[300]; describe (idx, d, sizeof d);
+    if (WIFSIGNALED (status)) vx_fail ("died:signal:element", "process died with signal %d: %s", WTERMSIG (status), d);
+    else vx_fail ("died:exit:element", "process exited with %d: %s", WEXITSTATUS (status), d);
+  }
+}
+static void elem_body (long idx) {
   hx_last_error[0] = 0;
   if (!strcmp (part, "leaves")) leaves_elem (idx);
   else if (!strcmp (part, "struct")) struct_elem (idx);
@@ -857,6 +893,38 @@ static void describe (long idx, char *buf, size_t len) {
     snprintf (buf, len, "leaf class %s in context %s: %.300s", l->cls, CXNAME[cx], hx_canon_s (&v));
   } else if (!strcmp (part, "struct")) {
     snprintf (buf, len, "values #%ld..#%ld of the depth-%d grammar", idx * STRUCT_BLOCK, idx * STRUCT_BLOCK + STRUCT_BLOCK - 1, DEPTH);
+  } else if (!strcmp (part, "damage")) {
+    char m[512], what[80]; long ntt = text_off[ntext];
+    if (idx < ntt * 3) {
+      int mode = (int) (idx % 3); idx /= 3;
+      int t = 0; while (idx >= text_off[t + 1]) t++;
+      if (!mutate (TEXT[t], idx - text_off[t], SYMS, NSYM, m, what, sizeof what)) { snprintf (buf, len, "(identity substitution, skipped)"); return; }
+      snprintf (buf, len, "%s of the text %s (saved form %.100s, %s)", mode == 0 ? "restore_variable" : mode == 1 ? "restore_object" : "restore_object(,1)", m, TEXT[t], what);
+    } else {
+      idx -= ntt * 3; int nc = (int) (idx % 2); idx /= 2;
+      int f = 0; while (idx >= file_off[f + 1]) f++;
+      if (!mutate (FILES[f], idx - file_off[f], FSYMS, NFSYM, m, what, sizeof what)) { snprintf (buf, len, "(identity substitution, skipped)"); return; }
+      snprintf (buf, len, "restore_object(,%d) of save file #%d with %s: %.300s", nc, f, what, m);
+    }
+  } else if (!strcmp (part, "strings")) {
+    int L = 0; long i = idx;
+    for (;; L++) { long c = pw (NS, L > 2 ? L - 2 : 0); if (i < c) break; i -= c; }
+    char pre[16]; int np = L > 2 ? L - 2 : 0;
+    for (int k = np - 1; k >= 0; k--) { pre[k] = SSYMS[i % NS]; i /= NS; }
+    pre[np] = 0;
+    snprintf (buf, len, "restore_svalue/safe_restore_svalue of every string of length %d over %s starting with '%s'", L, SSYMS, pre);
+  } else if (!strcmp (part, "chain")) {
+    snprintf (buf, len, "%d nested containers of kind %s (limit %d)", CHAIN_N[idx % NCHAIN_N], CHAIN_KIND[idx / NCHAIN_N], MAX_SAVE_SVALUE_DEPTH);
+  } else if (!strcmp (part, "names")) {
+    snprintf (buf, len, "save_object/restore_object(\"%s\") %s", NAMES[idx / 2], idx % 2 ? "through the efuns" : "through the C entry points");
+  } else if (!strcmp (part, "crash")) {
+    long nc = crash_total () - NTORN;
+    if (idx >= nc) snprintf (buf, len, "left-over temporary of %ld bytes", idx - nc);
+    else {
+      int zeros = (int) (idx % 2); idx /= 2; int pad = PADS[idx % NPAD]; idx /= NPAD; int mode = (int) (idx % 4); idx /= 4;
+      snprintf (buf, len, "save_object over an existing file (pad %d, save_zeros %d): libc call #%ld %s", pad, zeros, idx,
+                mode == 0 ? "crash before" : mode == 1 ? "crash after" : mode == 2 ? "fails with EIO" : "fails with ENOSPC");
+    }
   } else snprintf (buf, len, "part %s element %ld", part, idx);
 }
 
@@ -867,6 +935,8 @@ int main (int argc, char **argv) {
   NL = (int) vx_opt_long ("nl", 1);
   DEPTH = (int) vx_opt_long ("depth", 3);
   SLEN = (int) vx_opt_long ("slen", 5);
+  NTEXTS = (int) vx_opt_long ("ntexts", MAXTEXT_DEFAULT);
+  OBJRT = (int) vx_opt_long ("objrt", 1);
   selftest = (int) vx_opt_long ("selftest", 0);
   if (NL < 1) NL = 1; if (NL > 2) NL = 2;
   if (DEPTH < 1) DEPTH = 1; if (DEPTH > 3) DEPTH = 3;
@@ -888,6 +958,7 @@ int main (int argc, char **argv) {
   vx_count_name (4, "crash_points");
   vx_count_name (5, "failing_calls");
   vx_count_name (6, "size_table_retained");
+  vx_count_name (7, "elements_ended_by_memory_error");
   O = hx_load ("/c16/o", 0);
   if (!O) { fprintf (stderr, "cannot load /c16/o: %s\n", hx_last_error); return 2; }
   add_ref (O, "harness");
@@ -914,6 +985,7 @@ int main (int argc, char **argv) {
   else if (!strcmp (part, "strings")) total = strings_total ();
   else if (!strcmp (part, "crash")) total = crash_total ();
   else { fprintf (stderr, "unknown --part\n"); return 2; }
+  if (__asan_set_error_report_callback) __asan_set_error_report_callback (on_asan_report);
   vx_set_enum (total, elem, describe);
   return vx_run (argc, argv, 0);
 }
